@@ -5,9 +5,12 @@ package filtering
 import (
 	"fmt"
 	"net/netip"
+	"os"
+	"path/filepath"
 	"sort"
 	"strings"
 
+	"github.com/AdguardTeam/AdGuardHome/internal/aghnet"
 	"github.com/miekg/dns"
 	"gopkg.in/yaml.v3"
 )
@@ -467,7 +470,10 @@ func c06SameRows(a, b []c06Row) bool {
 
 // c06Obs is what CheckHost returned, in comparable form.
 type c06Obs struct {
-	Pass   bool     `json:"pass,omitempty"`
+	Pass bool `json:"pass,omitempty"`
+	// Hosts: the rewrite table did not answer and the hosts files did
+	// (Reason RewrittenAutoHosts); for the table this is a pass.
+	Hosts  bool     `json:"answered_from_hosts_files,omitempty"`
 	Reason string   `json:"reason"`
 	Canon  string   `json:"canon,omitempty"`
 	IPs    []string `json:"ips"`
@@ -478,6 +484,12 @@ type c06Obs struct {
 func c06Observe(res Result) (o c06Obs) {
 	o.Reason = res.Reason.String()
 	o.Pass = res.Reason == NotFilteredNotFound
+	if res.Reason == RewrittenAutoHosts {
+		o.Pass, o.Hosts = true, true
+		o.IPs = []string{}
+
+		return o
+	}
 	o.Canon = res.CanonName
 	o.IPs = []string{}
 	set := map[string]bool{}
@@ -668,4 +680,54 @@ func c06FileDiffKinds(table, inFile []c06Entry) string {
 	}
 
 	return "altered-in-file-" + strings.Join(ks, "+")
+}
+
+// c06NopWatcher is a file-system watcher for hosts files that never change.
+type c06NopWatcher struct{}
+
+func (c06NopWatcher) Start() (err error)          { return nil }
+func (c06NopWatcher) Close() (err error)          { return nil }
+func (c06NopWatcher) Events() (e <-chan struct{}) { return nil }
+func (c06NopWatcher) Add(_ string) (err error)    { return nil }
+
+// c06HostsContainer writes a hosts file into dir and builds the hosts
+// container from it the way home does for the operating system's files
+// (aghnet.NewHostsContainer over a file system and a path).
+func c06HostsContainer(dir string, lines []string) (hc *aghnet.HostsContainer, err error) {
+	err = os.WriteFile(filepath.Join(dir, "hosts"), []byte(strings.Join(lines, "\n")+"\n"), 0o644)
+	if err != nil {
+		return nil, err
+	}
+
+	return aghnet.NewHostsContainer(os.DirFS(dir), c06NopWatcher{}, "hosts")
+}
+
+// c06HostsLines makes hosts-file lines for names the table is concerned with:
+// the given names (queried names, CNAME sources) and the lower-case CNAME
+// targets of the table, each with addresses the table never uses, of one or
+// both families.
+func c06HostsLines(pick func(n int) int, table []c06Entry, names []string) (lines []string) {
+	cand := append([]string(nil), names...)
+	for _, e := range table {
+		if r := c06Read(e); r.kind == c06KindCNAME && !c06HasUpper(e.Answer) && !strings.Contains(e.Answer, "*") && !c06OddException(e.Answer) {
+			cand = append(cand, e.Answer)
+		}
+	}
+	seen := map[string]bool{}
+	for _, n := range cand {
+		if seen[n] || pick(100) < 35 {
+			continue
+		}
+		seen[n] = true
+		switch pick(3) {
+		case 0:
+			lines = append(lines, fmt.Sprintf("10.9.9.%d %s", 1+pick(250), n))
+		case 1:
+			lines = append(lines, fmt.Sprintf("fd99::%x %s", 1+pick(250), n))
+		default:
+			lines = append(lines, fmt.Sprintf("10.9.9.%d %s", 1+pick(250), n), fmt.Sprintf("fd99::%x %s", 1+pick(250), n))
+		}
+	}
+
+	return lines
 }
